@@ -6,6 +6,7 @@ import wgslgen as W
 import obs
 
 ID = "C03"
+TABLES = ["stages"]      # leaf tables compared exhaustively through the hooks (coq/Check/Tables.v)
 VALIDATE_MIX = True
 REQUIRES = ["Agree", "C03Spec", "Truth"]
 THEOREM_REQUIRES = ["C03"]
